@@ -32,7 +32,7 @@ class Boom(Exception):
     pass
 
 
-TMP_OPS = ["create", "create", "remove", "ext_remove", "flush", "len", "index", "create", "remove", "ext_delete_only", "create", "reenter"]
+TMP_OPS = ["create", "create", "remove", "ext_remove", "flush", "len", "index", "create", "remove", "ext_delete_only", "create", "reenter", "ext_to_dir"]
 
 
 def dec_tmp(c):
@@ -58,6 +58,7 @@ def run_tmp_once(case, ctx, fault_at, sc, run_no):
     first_manager = pool._manager if multi and hasattr(pool, "_manager") else None
     live = []
     gone = set()        # live paths deleted externally without telling the pool
+    dirs = set()        # live paths that somebody has replaced by a directory: os.remove() on them fails with an OSError
     everything = []
     created_before_fault = 0
     flush_then_create = False
@@ -96,6 +97,8 @@ def run_tmp_once(case, ctx, fault_at, sc, run_no):
                 created_before_fault += 1
                 if flushed:
                     flush_then_create = True
+            elif k in ("remove", "ext_remove", "reenter") and dirs:
+                continue
             elif k == "remove" and live:
                 p = live.pop(o[1] % len(live))
                 gone.discard(p)
@@ -112,11 +115,22 @@ def run_tmp_once(case, ctx, fault_at, sc, run_no):
             elif k == "ext_delete_only" and live:
                 # somebody deletes a pool file behind the pool's back: the pool still lists it; flush()/exit must cope
                 p = live[o[1] % len(live)]
-                if p not in gone:
+                if p not in gone and p not in dirs:
                     os.remove(p)
                     gone.add(p)
                     ctx.label("externally-deleted-file-in-pool")
                     ctx.nontrivial = True
+            elif k == "ext_to_dir" and live and not multi and use_with and fault_at is None and not dirs:
+                # a pool file is replaced by a directory behind the pool's back: the clean-up at exit fails with an OSError; the
+                # caller repairs the cause and flushes again - which must still remove everything the pool created
+                p = live[o[1] % len(live)]
+                if p not in gone:
+                    os.remove(p)
+                    os.mkdir(p)
+                    dirs.add(p)
+                    ctx.label("pool-file-replaced-by-a-directory")
+            elif k == "flush" and dirs:
+                continue
             elif k == "flush":
                 pool.flush()
                 live.clear()
@@ -194,6 +208,29 @@ def run_tmp_once(case, ctx, fault_at, sc, run_no):
                     pool.flush()
         except Boom as e:
             raised = e
+        except OSError as e:
+            if not dirs:
+                raise
+            # expected: the exit clean-up could not remove the directory. Repair and flush again.
+            for p in dirs:
+                os.rmdir(p)
+            try:
+                pool.flush()
+            except Exception as e2:  # noqa
+                fail("flush-after-failed-exit/exception-%s" % type(e2).__name__, repr(e2))
+            if os.listdir(d):
+                fail("flush-after-failed-exit/files-left", "%d files left: the failed clean-up at exit made the pool forget files it had not removed yet" % len(os.listdir(d)))
+            ctx.nontrivial = True
+            return
+        if dirs:
+            # the exit clean-up did not raise (an implementation may skip what it cannot remove): the same repair-and-flush applies
+            for p in dirs:
+                if os.path.isdir(p):
+                    os.rmdir(p)
+            pool.flush()
+            if os.listdir(d):
+                fail("flush-after-failed-exit/files-left", "%d files left after the cause was repaired and flush() called again" % len(os.listdir(d)))
+            return
         if fault_at is not None and (raised is None or raised.args != (fault_at,)):
             fail("exception-not-propagated", "the body raised Boom(%r) but %r came out of the with-block" % (fault_at, raised))
         if fault_at is None and raised is not None:
